@@ -41,6 +41,8 @@ func buildVariant(v int) built {
 		func(i int) { bulb.Lightbulb.Brightness.SetValue(i % 101) },
 		func(i int) { bridge.Info.FirmwareRevision.SetValue(fmt.Sprintf("1.%d", i)) },
 		func(i int) { bulb.Info.Name.SetValue(fmt.Sprintf("bulb renamed %d", i)) },
+		// strings of very different lengths, also far beyond what fits the default maximum length
+		func(i int) { bridge.Info.SerialNumber.SetValue(strings.Repeat("s", 1+(i*37)%300)) },
 	)
 	switch v {
 	case 1: // extra service
@@ -54,7 +56,8 @@ func buildVariant(v int) built {
 	case 3: // different accessory type instead of the bulb
 		out := accessory.NewOutlet(accessory.Info{Name: "bulb"})
 		b.rest = []*accessory.Accessory{out.Accessory}
-		b.values = []func(int){func(i int) { out.Outlet.On.SetValue(i%2 == 0) }, func(i int) { bridge.Info.FirmwareRevision.SetValue(fmt.Sprintf("2.%d", i)) }}
+		b.values = []func(int){func(i int) { out.Outlet.On.SetValue(i%2 == 0) }, func(i int) { bridge.Info.FirmwareRevision.SetValue(fmt.Sprintf("2.%d", i)) },
+			func(i int) { out.Info.Model.SetValue(strings.Repeat("m", 1+(i*53)%300)) }}
 	case 4: // custom permission on an existing characteristic
 		bulb.Lightbulb.Brightness.Perms = []string{characteristic.PermRead}
 	case 5: // single accessory, no bridge
@@ -81,6 +84,7 @@ type hworld struct {
 	structure int // number of structural changes
 	valueSets int
 	starts    int
+	restore   []int // value changes applied to the freshly built accessories before the next start
 }
 
 func (w *world2) dummy() {}
@@ -101,6 +105,13 @@ func deviceEntity(dir, id string) (pub []byte, raw string, err error) {
 
 func (w *hworld) start(v int) error {
 	w.cur = buildVariant(v)
+	// an application restores the state it persisted before it publishes its accessories
+	for k, r := range w.restore {
+		w.cur.values[k%len(w.cur.values)](r)
+	}
+	if len(w.restore) > 0 {
+		w.flags["values-restored-before-start"] = true
+	}
 	acc, err := fixture.StartTransport(w.dir, w.pin, false, w.cur.first, w.cur.rest...)
 	if err != nil {
 		return fmt.Errorf("INFRA: %v", err)
@@ -243,14 +254,31 @@ func TestC20History(t *testing.T) {
 						w.flags["unpair:database"] = true
 					} else {
 						w.n++
-						c := refctl.NewController(fmt.Sprintf("db-controller-%d", w.n), []byte{byte(w.n), 7})
+						name := fmt.Sprintf("db-controller-%d", w.n)
+						// identifiers are opaque: also the shortest ones there are
+						switch rapid.IntRange(0, 5).Draw(t, "odd-identifier") {
+						case 0:
+							name = ""
+						case 1:
+							name = "."
+						case 2:
+							name = "\x00"
+						}
+						if w.paired[name] != nil {
+							name = fmt.Sprintf("db-controller-%d", w.n)
+						}
+						if len(name) <= 1 {
+							w.flags["pair:odd-identifier"] = true
+						}
+						c := refctl.NewController(name, []byte{byte(w.n), 7})
 						d.SaveEntity(db.NewEntity(c.ID, c.LTPK, nil))
 						w.paired[c.ID] = c
-						note("while stopped: " + c.ID + " paired through the database")
+						note(fmt.Sprintf("while stopped: %q paired through the database", c.ID))
 						w.flags["pair:database"] = true
 					}
 				}
-				note(fmt.Sprintf("restart(variant %d)", v))
+				w.restore = rapid.SliceOfN(rapid.IntRange(0, 1000), 0, 6).Draw(t, "restored-values")
+				note(fmt.Sprintf("restart(variant %d, %d values restored before the start)", v, len(w.restore)))
 				hfail(t, w, w.start(v))
 			},
 			"pair-protocol": func(t *rapid.T) {
